@@ -36,6 +36,8 @@ def first_assignment(ck: Check, fi: FuncInfo, name: str) -> Optional[Term]:
                 if st.target.id == name:
                     return v
                 scope.env[st.target.id] = v
+            elif isinstance(st, ast.If) and not st.orelse and st.body and isinstance(st.body[-1], (ast.Return, ast.Raise)):
+                continue    # an early exit does not redefine anything for the code that follows
             elif isinstance(st, (ast.For, ast.While, ast.If, ast.Try, ast.With)):
                 break
     finally:
